@@ -442,7 +442,10 @@ func Source(unsupportedJSFeatures compat.JSFeature) logger.Source {
 					var x = generator[k](v), isAwait = (v = x.value) instanceof __await, done = x.done
 					Promise.resolve(isAwait ? v[0] : v)
 						.then(y => isAwait
-							? resume(k === 'return' ? k : 'next', v[1] ? { done: y.done, value: y.value } : y, yes, no)
+							// Note: Only a "yield*" passes the awaited result back in using the
+							// same method. A plain "await" is always resumed using "next", even
+							// if "return" caused it to be evaluated (e.g. in a "finally" block).
+							? resume(k === 'return' && v[1] ? k : 'next', v[1] ? { done: y.done, value: y.value } : y, yes, no)
 							: yes({ value: y, done }))
 						.catch(e => resume('throw', e, yes, no))
 				} catch (e) {
